@@ -285,10 +285,11 @@ theorem pipeline_positions_who (reg : Registry) (opts : Opts) :
   semantic_positions_who reg opts (plugFull reg) (plugFull_keeps_positions_who reg)
 
 /-- Duplicate key ⇒ the PARENT: the error stands at a statement of a loaded module that has a data
-definition substatement (`keyKws`: the keywords `ToEntry` adds to the parent's `Dir`). -/
+definition substatement (`keyKws`: the keywords `ToEntry` adds to the parent's `Dir`) of a kind that
+`ToEntry` converts below a statement with the parent's keyword (`fieldOrder`). -/
 theorem duplicate_key_position (reg : Registry) (opts : Opts) (e : Err)
     (he : e ∈ (processAll reg opts (plugFull reg)).errors) (hp : Positioned e) (hc : e.cls = "duplicate-key") :
-    ∃ s, StmtOf reg s ∧ At e s ∧ ∃ c ∈ s.subs, c.kw ∈ keyKws := by
+    ∃ s, StmtOf reg s ∧ At e s ∧ ∃ c ∈ s.subs, c.kw ∈ keyKws ∧ c.kw ∈ fieldOrder s.kw := by
   obtain ⟨s, h1, h2, _, h4⟩ := pipeline_positions_who reg opts e he hp
   exact ⟨s, h1, h2, h4.1 hc⟩
 
@@ -297,14 +298,15 @@ theorem duplicate_key_position (reg : Registry) (opts : Opts) (e : Err)
 loaded (sub)module, for registries holding other statements). -/
 theorem duplicate_node_position (reg : Registry) (opts : Opts) (e : Err)
     (he : e ∈ (processAll reg opts (plugFull reg)).errors) (hp : Positioned e) (hc : e.cls = "duplicate-node") :
-    ∃ s, StmtOf reg s ∧ At e s ∧ (s.kw = "grouping" ∨ s.kw = "augment" ∨ IsModKw s.kw ∨ TopOf reg s) := by
+    ∃ s, StmtOf reg s ∧ At e s ∧ (s.kw = "grouping" ∨ ModAugment reg s ∨ IsModKw s.kw ∨ TopOf reg s) := by
   obtain ⟨s, h1, h2, _, h4⟩ := pipeline_positions_who reg opts e he hp
   exact ⟨s, h1, h2, h4.2.1 hc⟩
 
-/-- Augment target not found ⇒ an `augment` statement. -/
+/-- Augment target not found ⇒ an `augment` statement standing directly below a `module` /
+`submodule` statement of a loaded module. -/
 theorem augment_not_found_position (reg : Registry) (opts : Opts) (e : Err)
     (he : e ∈ (processAll reg opts (plugFull reg)).errors) (hp : Positioned e) (hc : e.cls = "augment-not-found") :
-    ∃ s, StmtOf reg s ∧ At e s ∧ s.kw = "augment" := by
+    ∃ s, StmtOf reg s ∧ At e s ∧ s.kw = "augment" ∧ ∃ p, StmtOf reg p ∧ IsModKw p.kw ∧ s ∈ p.subs := by
   obtain ⟨s, h1, h2, _, h4⟩ := pipeline_positions_who reg opts e he hp
   exact ⟨s, h1, h2, h4.2.2.1 hc⟩
 
@@ -516,13 +518,13 @@ example : (processAll regD {} plug).errors.map (fun e => (e.file, e.line, e.col,
 -- `Who` says something: it holds of the container and fails of the second leaf; it holds of the
 -- deviation statement
 example : Who regK "duplicate-key" contK ∧ ¬ Who regK "duplicate-key" (leafX 6 5) := by
-  refine ⟨⟨fun _ => ⟨leafX 5 5, List.Mem.head _, by decide⟩, ?_, ?_, ?_, ?_⟩, ?_⟩
+  refine ⟨⟨fun _ => ⟨leafX 5 5, List.Mem.head _, by decide, by decide⟩, ?_, ?_, ?_, ?_⟩, ?_⟩
   · intro h; exact absurd h (by decide)
   · intro h; exact absurd h (by decide)
   · intro h; exact absurd h (by decide)
   · intro h; exact absurd h (by decide)
   · intro h
-    obtain ⟨c, hc, hk⟩ := h.1 rfl
+    obtain ⟨c, hc, hk, _⟩ := h.1 rfl
     revert hk
     have : c = st 6 14 "type" "string" := by simpa [leafX, st, Stmt.subs] using hc
     subst this
